@@ -749,7 +749,17 @@ resolve_cases = st.fixed_dictionaries(
         "obj": _small_obj,
         "cfg": st.one_of(_roomy_cfg, _roomy_cfg, _cfg),
         "validator": _validator,
-        "script": _scripts(0, 2),
+        "script": _scripts(
+            0,
+            2,
+            st.one_of(
+                _fault,
+                _fault,
+                st.tuples(st.just(("head", "cl")), st.just("small")),
+                st.tuples(st.just(("probe", "mode")), st.just("206_total_small")),
+                st.tuples(st.just(("ce_declared", None)), st.sampled_from(["get_only", "head_only"])),
+            ),
+        ),
     }
 )
 
